@@ -247,6 +247,26 @@ def run(ctx):
             events.append({"kind": "conv", "name": "reference-integration-error<=C*phi_max", "err_ppm": int(min(10 ** 9, errs[phi] * 1e6)), "phi_ppm": int(phi * 1e6)})
             meta.append(("conv", "reference", phi))
         ctx.case(("reference", b2 != 0, b3 != 0, npol, al > 0), {"reference-integration": {"beta_2": b2, "beta_3": b3, "errors": errs}})
+    # constant-envelope inputs (phase-modulated carrier, offset tone): |A|^2 is flat at the input, dispersion turns phase into amplitude
+    for it, kind_ in enumerate(["pm", "tone", "pm2pol"]):
+        n = 512
+        tgrid = np.arange(n) / n
+        if kind_ == "tone":
+            f = math.sqrt(0.1) * np.exp(2j * math.pi * 9 * tgrid)
+        else:
+            f = math.sqrt(0.1) * np.exp(1.7j * np.sin(2 * math.pi * 5 * tgrid) + 0.4j * np.sin(2 * math.pi * 23 * tgrid))
+        fld = f if kind_ != "pm2pol" else np.array([f, f.conj()])
+        L, al, b2, b3, g = 25.0, 0.2, [-20.0, 15.0, -10.0][it], [0.0, 0.2, 0.1][it], 1.5
+        ref = reference(fld, L, al, b2, b3, g)
+        lin = reference(fld, L, al, b2, b3, 0.0, steps=1)
+        with deadline(600):
+            law("linear-limit=DM", FIBER(optical_signal(fld), L, al, b2, b3, 0.0).signal + 1, lin + 1)
+            for phi in (0.05, 0.01):
+                o = FIBER(optical_signal(fld), L, al, b2, b3, g, phi).signal
+                e = float(np.max(np.abs(o - ref)) / np.max(np.abs(ref))) if np.all(np.isfinite(o)) else 1e3
+                events.append({"kind": "conv", "name": "reference-integration-error<=C*phi_max", "err_ppm": int(min(10 ** 9, e * 1e6)), "phi_ppm": int(phi * 1e6)})
+                meta.append(("conv", "reference-constant-envelope", phi))
+        ctx.case(("reference-constant-envelope", kind_), {"constant-envelope input": kind_})
     # self-convergence on general inputs
     setgv(1)
     for it in range(20 if T else 3):
